@@ -6,6 +6,25 @@ open Cocls Cocls.Proto Cocls.Sched
 
 def H : Heap := stdHeap
 
+/-- identifier standing for `&tag` of the `interval()` coroutine frame (harness identifiers are < 2^20) -/
+def tagId : Nat := 4000000
+
+/-- the `interval()` generator as a client program of the scheduler -/
+structure Ivl where
+  dur : Nat
+  started : Bool := false          -- body entered: the stop callback is registered
+  stopReq : Bool := false
+  done : Bool := false
+  sleeping : Bool := false         -- suspended in `co_await waiter` (a sleep carrying `&tag` is pending)
+  asked : Bool := false            -- the harness holds an unresolved future of the generator
+  nextTp : Nat := 0
+
+structure DState where
+  s : State := init
+  ivl : Option Ivl := none
+  tags : List Nat := []            -- serials of the sleeps scheduled by the generator
+  clock : Nat := 0
+
 def fateStr : Fate → String
   | Fate.expired _ => "ok"
   | Fate.cancelled 0 => "canceled"
@@ -13,18 +32,37 @@ def fateStr : Fate → String
   | Fate.removed => "ok"
   | Fate.dropped => "canceled"
 
-def doneStr (d : Done) : String := s!"sleep#{d.serial}={fateStr d.fate}"
-
 def timeStr : Option Nat → String
   | none => "t:max"
   | some t => s!"t:{t}"
 
-/-- runtime check of the heap contract on the model's own vector (the theorems assume it of `H`) -/
+/-- runtime check of the heap contract on the model's own vector (proved in general: `stdHeap_spec`) -/
 def heapOk (l : List Entry) : Bool :=
   (List.range l.length).all (fun j => j == 0 || decide ((getE l ((j - 1) / 2)).tp ≤ (getE l j).tp))
 
 def dumpStr (h : List Entry) : String :=
-  joinWith " " (s!"n={h.length}" :: h.map (fun e => s!"{e.tp}:{e.id}:{boolStr e.alive}"))
+  joinWith " " (s!"n={h.length}" :: h.map (fun e =>
+    (toString e.tp) ++ ":" ++ (if e.id < 1048576 then toString e.id else "T") ++ ":" ++ boolStr e.alive))
+
+/-- harness index of a sleep: the generator's own sleeps are not in the harness' future set -/
+def display (d : DState) (serial : Nat) : Nat := serial - (d.tags.filter (· < serial)).length
+
+/-- translate the completions logged since `s0` into harness events and let the generator react to its own -/
+def absorb (d : DState) (s0 : State) (sortThem : Bool := false) : DState × List String :=
+  let fresh := d.s.log.drop s0.log.length
+  let fresh := if sortThem then sortBy (fun x => (x.serial, 0)) fresh else fresh
+  fresh.foldl (fun (acc : DState × List String) (x : Done) =>
+    let (d, evs) := acc
+    if d.tags.contains x.serial then
+      match d.ivl, x.fate with
+      | some g, Fate.expired now =>
+          -- resumed after the sleep: `next = now() + dur; co_yield counter`
+          ({ d with ivl := some { g with sleeping := false, asked := false, nextTp := now + g.dur } }, evs ++ ["ivl=tick"])
+      | some g, _ =>
+          -- await_canceled_exception caught: the generator finishes
+          ({ d with ivl := some { g with sleeping := false, asked := false, done := true } }, evs ++ ["ivl=done"])
+      | none, _ => (d, evs)
+    else (d, evs ++ [s!"sleep#{display d x.serial}={fateStr x.fate}"])) (d, [])
 
 /-- `drain now`: get_expired(now) until it returns a time point -/
 def drain (s : State) (now : Nat) : Nat → State × Option Nat
@@ -35,63 +73,300 @@ def drain (s : State) (now : Nat) : Nat → State × Option Nat
       | (s1, Res.next t) => (s1, t)
       | (s1, _) => (s1, none)
 
-def newEvents (s0 s1 : State) : List String := (s1.log.drop s0.log.length).map doneStr
+/-- `request_stop()` on the generator's token -/
+def requestStop (d : DState) : DState × List String :=
+  match d.ivl with
+  | none => (d, [])
+  | some g =>
+      if g.stopReq then (d, [])
+      else
+        let g := { g with stopReq := true }
+        let d := { d with ivl := some g }
+        if g.started && !g.done then
+          -- the stop callback: `this->cancel(&tag)`
+          match runProg H (stopCallback tagId) { s := d.s } with
+          | some m => absorb { d with s := m.s } d.s
+          | none => (d, ["DEADLOCK"])
+        else (d, [])
+
+/-- resume the generator body for the next value at clock `now` -/
+def ivlNext (d : DState) (g : Ivl) (now : Nat) : DState × String :=
+  -- first entry: register the stop callback (an already stopped token runs it at once: nothing to cancel),
+  -- `next = now() + dur`
+  let g := if g.started then g else { g with started := true, nextTp := now + g.dur }
+  if g.stopReq then
+    ({ d with ivl := some { g with done := true } }, "next ready ntf=0 ; ivl=done")
+  else
+    match step H d.s (Op.schedule g.nextTp tagId) with
+    | (s1, Res.scheduled k ntf) =>
+        ({ d with s := s1, tags := d.tags ++ [k], ivl := some { g with sleeping := true, asked := true } },
+         s!"next pending ntf={boolStr ntf}")
+    | (s1, _) => ({ d with s := s1 }, "bad-op")
+
+def withEv (d : DState × List String) (head : String) : DState × String := (d.1, withEvents head d.2)
+
+/-- manual mode: one op line -> new state and output line; `none` when the line is not an op -/
+def manOp (d : DState) (ws : List String) : Option (DState × String) :=
+  let nat (i : Nat) : Nat := (natArg ws i).getD 0
+  let s := d.s
+  match ws with
+  | "sleep" :: _ | "sched" :: _ =>
+      match step H s (Op.schedule (nat 1) (nat 2)) with
+      | (s1, Res.scheduled k ntf) =>
+          let d1 := { d with s := s1 }
+          some (d1, s!"sleep#{display d1 k} pending ntf={boolStr ntf}")
+      | (s1, _) => some ({ d with s := s1 }, "bad-op")
+  | "ge" :: _ =>
+      match step H s (Op.getExpired (nat 1)) with
+      | (s1, Res.expired _) => some (withEv (absorb { d with s := s1, clock := nat 1 } s) "ge p")
+      | (s1, Res.next t) => some ({ d with s := s1, clock := nat 1 }, s!"ge {timeStr t}")
+      | (s1, _) => some ({ d with s := s1 }, "bad-op")
+  | "drain" :: _ =>
+      let (s1, t) := drain s (nat 1) (s.heap.length + 2)
+      some (withEv (absorb { d with s := s1, clock := nat 1 } s) s!"drain {timeStr t}")
+  | ["cancel", _] | ["cancelx", _, _] =>
+      match step H s (Op.cancel (nat 1) (nat 2)) with
+      | (s1, Res.flag b) => some (withEv (absorb { d with s := s1 } s) s!"cancel {boolStr b}")
+      | (s1, _) => some ({ d with s := s1 }, "bad-op")
+  | "remove" :: _ =>
+      match step H s (Op.remove (nat 1)) with
+      | (s1, Res.removed r) => some (withEv (absorb { d with s := s1 } s) s!"remove {boolStr r.isSome}")
+      | (s1, _) => some ({ d with s := s1 }, "bad-op")
+  | ["dump"] => some (d, "dump " ++ dumpStr s.heap)
+  | "ivl" :: _ => some ({ d with ivl := some { dur := nat 1 }, clock := nat 2 }, "ivl")
+  | "next" :: _ =>
+      match d.ivl with
+      | none => some (d, "next n/a")
+      | some g =>
+          if g.asked || g.done then some ({ d with clock := nat 1 }, "next n/a")
+          else some (ivlNext { d with clock := nat 1 } g (nat 1))
+  | ["stop"] =>
+      match d.ivl with
+      | none => some (d, "stop n/a")
+      | some g => some (withEv (requestStop d) s!"stop {boolStr (!g.stopReq)}")
+  | _ => none
+
+/-- end of a case: stop and destroy the generator, then destroy the scheduler -/
+def finish (d : DState) : List String :=
+  let (d1, evs1) := requestStop d
+  let (s2, _) := step H d1.s Op.destroy
+  let (_, evs2) := absorb { d1 with s := s2 } d1.s true
+  evs1 ++ evs2
 
 def check (s : State) (line : String) : String :=
   if heapOk s.heap then line else line ++ " HEAP-CONTRACT-BROKEN"
 
-/-- manual mode: one op line -> new state and output line; `none` when the line is not an op -/
-def manOp (s : State) (ws : List String) : Option (State × String) :=
-  let nat (i : Nat) : Nat := (natArg ws i).getD 0
-  match ws with
-  | "sleep" :: _ | "sched" :: _ =>
-      match step H s (Op.schedule (nat 1) (nat 2)) with
-      | (s1, Res.scheduled k ntf) => some (s1, s!"sleep#{k} pending ntf={boolStr ntf}")
-      | (s1, _) => some (s1, "bad-op")
-  | "ge" :: _ =>
-      match step H s (Op.getExpired (nat 1)) with
-      | (s1, Res.expired _) => some (s1, withEvents "ge p" (newEvents s s1))
-      | (s1, Res.next t) => some (s1, s!"ge {timeStr t}")
-      | (s1, _) => some (s1, "bad-op")
-  | "drain" :: _ =>
-      let (s1, t) := drain s (nat 1) (s.heap.length + 2)
-      some (s1, withEvents s!"drain {timeStr t}" (newEvents s s1))
-  | ["cancel", _] | ["cancelx", _, _] =>
-      match step H s (Op.cancel (nat 1) (nat 2)) with
-      | (s1, Res.flag b) => some (s1, withEvents s!"cancel {boolStr b}" (newEvents s s1))
-      | (s1, _) => some (s1, "bad-op")
-  | "remove" :: _ =>
-      match step H s (Op.remove (nat 1)) with
-      | (s1, Res.removed r) => some (s1, withEvents s!"remove {boolStr r.isSome}" (newEvents s s1))
-      | (s1, _) => some (s1, "bad-op")
-  | ["dump"] => some (s, "dump " ++ dumpStr s.heap)
-  | _ => none
-
-def destroyEvents (s : State) : State × List String :=
-  let (s1, _) := step H s Op.destroy
-  (s1, (sortBy (fun d => (d.serial, 0)) (s1.log.drop s.log.length)).map doneStr)
-
-partial def loopMan (lines : Array String) (i : Nat) (s : State) : IO Nat := do
+partial def loopMan (lines : Array String) (i : Nat) (d : DState) : IO Nat := do
   if h : i < lines.size then
     let ws := words lines[i]
     match ws with
     | ["end"] =>
-        let (_, evs) := destroyEvents s
-        IO.println (withEvents "end" evs)
+        IO.println (withEvents "end" (finish d))
         return i + 1
     | ["destroy"] =>
-        let (_, evs) := destroyEvents s
-        IO.println (withEvents "destroy" evs)
+        IO.println (withEvents "destroy" (finish d))
         IO.println "end"
         -- swallow the rest of the case
         let mut j := i + 1
         while j < lines.size && words lines[j]! != ["end"] do j := j + 1
         return j + 1
-    | [] => loopMan lines (i + 1) s
+    | [] => loopMan lines (i + 1) d
     | _ =>
-        match manOp s ws with
-        | some (s1, out) => IO.println (check s1 out); loopMan lines (i + 1) s1
-        | none => IO.println "bad-op"; loopMan lines (i + 1) s
+        match manOp d ws with
+        | some (d1, out) => IO.println (check d1.s out); loopMan lines (i + 1) d1
+        | none => IO.println "bad-op"; loopMan lines (i + 1) d
+  else return i
+
+
+/-! ## run mode: `start(awaitable)` in the only thread under virtual time
+
+The scheduler model is composed with a FIFO ready queue (coroutine mode of `coro_queue`, C05) and scripted sleeper
+coroutines; the worker is `Op.poll 0 clock`, `wait_until` advances the virtual clock. -/
+
+inductive Act where
+  | sleepFor (d id : Nat)
+  | sleepUntil (t id : Nat)
+  | cancel (id exc : Nat) (awaited : Bool)
+
+inductive Agent where
+  | worker
+  | co (k : Nat)
+  | stopper            -- the callback awaiting `all_done`: `request_stop()`
+  deriving BEq
+
+structure Co where
+  script : List Act
+  waiting : Option Nat := none     -- serial of the pending sleep
+  pendingCancel : Option (Nat × Bool) := none   -- suspended in `co_await cancel(id)`: (id, result)
+
+structure RState where
+  s : State := init
+  clock : Nat := 0
+  q : List Agent := []
+  cos : Array Co := #[]
+  live : Nat := 0
+  started : Bool := false          -- inside `start()`: `all_done` has its callback attached
+  allDone : Bool := false
+  stop : Bool := false
+  evs : Array String := #[]
+
+def parseAct (w : String) : Option Act :=
+  let kind := w.front
+  let rest := (w.drop 1).toString
+  let parts := rest.splitOn ":"
+  let a := (parts[0]? >>= String.toNat?).getD 0
+  let b := (parts[1]? >>= String.toNat?).getD 0
+  match kind with
+  | 's' => some (Act.sleepFor a b)
+  | 'u' => some (Act.sleepUntil a b)
+  | 'c' => some (Act.cancel a 0 false)
+  | 'a' => some (Act.cancel a 0 true)
+  | 'x' => some (Act.cancel a b false)
+  | 'y' => some (Act.cancel a b true)
+  | _ => none
+
+def RState.emit (r : RState) (e : String) : RState := { r with evs := r.evs.push e }
+
+def findCo (r : RState) (serial : Nat) : Option Nat :=
+  (List.range r.cos.size).find? (fun k => (r.cos[k]?.bind (·.waiting)) == some serial)
+
+def setCo (r : RState) (k : Nat) (c : Co) : RState := { r with cos := r.cos.setIfInBounds k c }
+
+/-- coroutine `k` finished: the last one resolves `all_done` -/
+def coDone (r : RState) (k : Nat) : RState :=
+  let r := r.emit s!"D{k}@{r.clock}"
+  let r := { r with live := r.live - 1 }
+  if r.live == 0 then
+    if r.started then { r with allDone := true, q := r.q ++ [Agent.stopper] } else { r with allDone := true }
+  else r
+
+/-- run coroutine `k` from its current action up to its next suspension; returns the agent to transfer to directly
+(`co_await cancel(..)` that hit) -/
+partial def runActs (r : RState) (k : Nat) : RState × Option Agent :=
+  match r.cos[k]? with
+  | none => (r, none)
+  | some c =>
+    match c.script with
+    | [] => (coDone r k, none)
+    | Act.sleepFor d id :: rest => sleepNow r k c (r.clock + d) id rest
+    | Act.sleepUntil t id :: rest => sleepNow r k c t id rest
+    | Act.cancel id exc awaited :: rest =>
+        match step H r.s (Op.cancel id exc) with
+        | (s1, Res.flag true) =>
+            let serial := (s1.log.getLast?.map (·.serial)).getD 0
+            let victim := findCo r serial
+            let r := { r with s := s1 }
+            match victim with
+            | none => (r.emit "LOST-VICTIM", none)
+            | some v =>
+                let r := setCo r v { (r.cos[v]?.getD { script := [] }) with waiting := none }
+                if awaited then
+                  -- symmetric transfer to the victim, this coroutine goes to the back of the queue
+                  let r := setCo r k { c with script := rest, pendingCancel := some (id, true) }
+                  ({ r with q := r.q ++ [Agent.co k] }, some (Agent.co v))
+                else
+                  let r := (r.emit s!"C{k}@{r.clock}:{id}=1")
+                  let r := setCo r k { c with script := rest }
+                  runActs { r with q := r.q ++ [Agent.co v] } k
+        | (s1, _) =>
+            let r := ({ r with s := s1 }).emit s!"C{k}@{r.clock}:{id}=0"
+            runActs (setCo r k { c with script := rest }) k
+where
+  sleepNow (r : RState) (k : Nat) (c : Co) (tp id : Nat) (rest : List Act) : RState × Option Agent :=
+    match step H r.s (Op.schedule tp id) with
+    | (s1, Res.scheduled serial _) =>
+        let r := ({ r with s := s1 }).emit s!"S{k}@{r.clock}:{tp}:{id}"
+        (setCo r k { c with script := rest, waiting := some serial }, none)
+    | (s1, _) => ({ r with s := s1 }, none)
+
+/-- resume coroutine `k` -/
+def resumeCo (r : RState) (k : Nat) (wokenSerial : Option Nat) : RState × Option Agent :=
+  match r.cos[k]? with
+  | none => (r, none)
+  | some c =>
+    match c.pendingCancel with
+    | some (id, _) =>
+        let r := (setCo r k { c with pendingCancel := none }).emit s!"C{k}@{r.clock}:{id}=1"
+        runActs r k
+    | none =>
+        -- woken from a sleep: the outcome is the fate logged for its serial
+        let fate := match wokenSerial with
+          | some serial => (r.s.log.find? (fun d => d.serial == serial)).map (fun d => fateStr d.fate)
+          | none => none
+        let r := r.emit s!"W{k}@{r.clock}={fate.getD "?"}"
+        runActs r k
+
+structure Woken where
+  k : Nat
+  serial : Nat
+
+/-- the ready queue holds (agent, serial it was woken for) -/
+partial def runQueue (r : RState) (woke : List (Nat × Nat)) (direct : Option Agent) : RState :=
+  let next : Option (Agent × List Agent) := match direct with
+    | some a => some (a, r.q)
+    | none => match r.q with
+      | [] => none
+      | a :: rest => some (a, rest)
+  match next with
+  | none => r
+  | some (a, rest) =>
+    let r := { r with q := rest }
+    match a with
+    | Agent.stopper => runQueue { r with stop := true } woke none
+    | Agent.co k =>
+        let serial := (woke.find? (fun p => p.1 == k)).map (·.2)
+        let woke := woke.filter (fun p => p.1 != k)
+        let (r, d) := resumeCo r k serial
+        runQueue r woke d
+    | Agent.worker =>
+        if r.stop then runQueue r woke none      -- `if (state.stop_requested()) break;` the worker coroutine ends
+        else
+          match step H r.s (Op.poll 0 r.clock) with
+          | (s1, Res.expired e) =>
+              let r := { r with s := s1 }
+              match findCo r e.serial with
+              | none => runQueue ((r.emit "LOST-SLEEPER")) woke none
+              | some k =>
+                  let r := setCo r k { (r.cos[k]?.getD { script := [] }) with waiting := none }
+                  runQueue { r with q := r.q ++ [Agent.co k, Agent.worker] } ((k, e.serial) :: woke) none
+          | (s1, Res.next t) =>
+              let r := { r with s := s1 }
+              if r.q.isEmpty then
+                match t with
+                | none => r.emit "HANG"
+                | some t =>
+                    let r := r.emit s!"wait:{r.clock}->{t}"
+                    let r := { r with clock := max r.clock t, s := (step H r.s (Op.wake 0)).1 }
+                    runQueue { r with q := r.q ++ [Agent.worker] } woke none
+              else runQueue { r with q := r.q ++ [Agent.worker], s := (step H r.s (Op.wake 0)).1 } woke none
+          | (s1, _) => { r with s := s1 }
+
+/-- a cancelled sleeper is resumed with the serial that was cancelled: track it through `woke` too -/
+def runGo (scripts : List (List Act)) (t0 : Nat) : List String :=
+  let r0 : RState := { clock := t0, cos := (scripts.map (fun sc => ({ script := sc } : Co))).toArray, live := scripts.length }
+  let r0 := if scripts.isEmpty then { r0 with allDone := true } else r0
+  -- creation: each coroutine runs up to its first suspension under its own temporary queue
+  let r1 := (List.range scripts.length).foldl (fun r k =>
+    let (r, d) := runActs r k
+    runQueue r [] d) r0
+  -- start(all_done)
+  let r2 := { r1 with started := true, stop := r1.allDone, q := [Agent.worker] }
+  let r3 := runQueue r2 [] none
+  (r3.evs.toList ++ [s!"ret@{r3.clock}", dumpStr r3.s.heap])
+
+partial def loopRun (lines : Array String) (i : Nat) (t0 : Nat) (scripts : List (List Act)) : IO Nat := do
+  if h : i < lines.size then
+    let ws := words lines[i]
+    match ws with
+    | ["end"] => IO.println "end"; return i + 1
+    | "co" :: acts =>
+        IO.println s!"co#{scripts.length}"
+        loopRun lines (i + 1) t0 (scripts ++ [acts.filterMap parseAct])
+    | ["go"] =>
+        IO.println (withEvents "go" (runGo scripts t0))
+        loopRun lines (i + 1) t0 []
+    | [] => loopRun lines (i + 1) t0 scripts
+    | _ => IO.println "bad-op"; loopRun lines (i + 1) t0 scripts
   else return i
 
 partial def loop (lines : Array String) (i : Nat) : IO Unit := do
@@ -100,7 +375,11 @@ partial def loop (lines : Array String) (i : Nat) : IO Unit := do
     match ws with
     | "case" :: id :: "man" :: _ =>
         IO.println s!"case {id}"
-        let j ← loopMan lines (i + 1) init
+        let j ← loopMan lines (i + 1) {}
+        loop lines j
+    | "case" :: id :: "run" :: rest =>
+        IO.println s!"case {id}"
+        let j ← loopRun lines (i + 1) ((rest.head? >>= String.toNat?).getD 0) []
         loop lines j
     | "case" :: id :: _ =>
         IO.println s!"case {id}"
